@@ -37,6 +37,13 @@ Theorem C17_accept : forall gs a, Forall wf_group gs -> advertised (map wrap gs)
   check_request adjust (enforced (map pair_of gs)) p = true.
 Proof. exact accept. Qed.
 
+(* ... and so is the answer of the manager's entry point _get_distribution: never OutOfBounds,
+   whatever adjust_power says and whatever remainder the distribution leaves. *)
+Theorem C17_accept_entry : forall gs a, Forall wf_group gs -> advertised (map wrap gs) = Some a ->
+  forall p adjust rem, il a <= p <= iu a -> (p <= el a \/ eu a <= p) ->
+  get_distribution_kind adjust (enforced (map pair_of gs)) p rem = DDistributed rem.
+Proof. exact accept_entry. Qed.
+
 (* ... in particular every power that `in SystemBounds` admits. *)
 Theorem C17_accept_contains : forall gs a, Forall wf_group gs -> advertised (map wrap gs) = Some a ->
   forall p adjust, adv_contains (Some a) p = true ->
@@ -104,6 +111,7 @@ Print Assumptions C17_advertised_shape.
 Print Assumptions C17_incl_equal.
 Print Assumptions C17_excl_dominates.
 Print Assumptions C17_accept.
+Print Assumptions C17_accept_entry.
 Print Assumptions C17_accept_contains.
 Print Assumptions C17_min_powers.
 Print Assumptions C17_min_powers_partial.
